@@ -229,6 +229,14 @@ func (sp SiteSpec) matches(s Site, withGuards bool) bool {
 			return false
 		}
 		for i, a := range sp.Args {
+			if strings.Contains(a, "@*") {
+				// "@*": any store version of that allocation (the
+				// table's own store rows say which fields are set)
+				if stripVer(strings.ReplaceAll(a, "@*", "")) != stripVer(s.Args[i]) {
+					return false
+				}
+				continue
+			}
 			if a != "*" && !termEq(a, s.Args[i]) {
 				return false
 			}
@@ -270,6 +278,7 @@ func (c *Ctx) CheckSitesPresent(rule string, fn *ssa.Function, specs []SiteSpec)
 
 func (c *Ctx) checkSites(rule string, fn *ssa.Function, specs []SiteSpec, closed bool) {
 	name := FuncName(fn)
+	recordTabled(c, fn, specs)
 	// A return without results carries no behaviour of its own (what it skips is
 	// visible in the guards of the effects after it), and its count changes under
 	// harmless reshaping (early return <-> else branch, return <-> break): such
